@@ -378,7 +378,7 @@ func TestSelfEncodingStructs(t *testing.T) {
 	impl := ps.ImplMessage()
 	one := ps.Val{L: []ps.Val{num(1), {B: []byte("a")}}}
 	zero := ps.Val{L: []ps.Val{{}, {}}}
-	for _, kind := range []string{"pm", "cm"} {
+	for _, kind := range ps.ImplKinds {
 		c := Case{
 			Schema: ps.Schema{Msgs: []ps.Message{{Fields: []ps.Field{
 				{Num: 1, K: ps.KMsg, Msg: 1, Impl: kind},
